@@ -18,6 +18,11 @@
 import Vita.C03.Lemmas
 import Vita.C03.Sig
 import Vita.C03.EffSound
+import Vita.C03.SigPath
+import Vita.C03.GenSigPath
+import Vita.C03.PackLemmas
+import Vita.C03.MurmurLemmas
+import Vita.C03.GenPack
 import Vita.Common.Murmur
 
 namespace Vita.C03
@@ -186,6 +191,161 @@ theorem de_hash_eq_iff (v w : List Nat) (hv : ∀ x ∈ v, x < 2 ^ 64) (hw : ∀
 
 end identity
 
+/-! ## Part A′ — the same statements about the code as TRANSLATED from the clang AST
+
+`GenPack` is regenerated from the current sources on every run (tools/translate_pack.py):
+`i_mep::pack`, `i_mep::hash`, `i_ga::hash`, `i_de::hash`, `team::hash`, `hash_t::combine`.  The
+terms must be the ones the model was written from (`*_as_modelled`, by `decide`); the meaning
+of those terms (`PackSyn.runPack`, `MepHashSyn.run`, …) is proved equal to the model, so the
+theorems of Part A hold for the generated terms. -/
+
+section translated
+open PackSyn USyn
+
+theorem gen_pack_as_modelled : GenPack.pack = packAsModelled := by decide
+/-- (the storage class of the scratch buffer is free here — automatic or `thread_local` —; a
+    `static` one is rejected by `sigpath_no_shared_state`) -/
+theorem gen_mepHash_as_modelled :
+    GenPack.mepHash = { mepHashAsModelled with storage := GenPack.mepHash.storage } := by decide
+theorem gen_gaHash_as_modelled : GenPack.gaHash = gaHashAsModelled := by decide
+theorem gen_deHash_as_modelled : GenPack.deHash = deHashAsModelled := by decide
+theorem gen_teamHash_as_modelled : GenPack.teamHash = teamHashAsModelled := by decide
+theorem gen_combine_as_modelled : GenPack.combine = combineAsModelled := by decide
+
+/-- the translated `i_mep::pack` computes `Model.pack` on every genome -/
+theorem gen_pack_eq_model (tab : SymTab) (g : Genome) (l : Locus) :
+    runPack GenPack.pack tab g l = pack tab g l := by
+  rw [gen_pack_as_modelled]; exact runPack_asModelled tab g l
+
+/-- layout independence, for the translated code -/
+theorem gen_pack_layout_indep (tab : SymTab) (g : Genome) (wf : WF tab g) (l : Locus)
+    (hi : l.1 < g.rows) (hc : l.2 < g.cols) :
+    ∃ t, unfold tab g l = some t ∧ WFT tab t ∧
+      runPack GenPack.pack tab g l = some (packTree tab t) := by
+  rw [gen_pack_eq_model]; exact pack_layout_indep tab g wf l hi hc
+
+/-- equal streams ⇔ equal active trees, for the translated code (all four opcode bytes, all eight
+    parameter bytes: this is where "single precision" or "skip the high byte" would fail) -/
+theorem gen_pack_injective (tab : SymTab) (g1 g2 : Genome) (wf1 : WF tab g1) (wf2 : WF tab g2)
+    (l1 l2 : Locus) (h1 : l1.1 < g1.rows ∧ l1.2 < g1.cols) (h2 : l2.1 < g2.rows ∧ l2.2 < g2.cols) :
+    runPack GenPack.pack tab g1 l1 = runPack GenPack.pack tab g2 l2 ↔
+      unfold tab g1 l1 = unfold tab g2 l2 := by
+  rw [gen_pack_eq_model, gen_pack_eq_model]
+  exact pack_eq_iff_tree_eq tab g1 g2 wf1 wf2 l1 l2 h1 h2
+
+/-- the translated `i_mep::hash` returns the hash of exactly the stream packed from `best()`,
+    whatever an earlier call left in the scratch buffer -/
+theorem gen_mep_hash {H : Type} [HashLike H] (Hf : Bytes → H) (tab : SymTab) (c : MepC) (b0 : Bytes) :
+    GenPack.mepHash.run Hf ((runPack GenPack.pack tab c.g c.best).getD []) b0 =
+      some (mepHash Hf tab c) := by
+  rw [gen_mepHash_as_modelled, gen_pack_eq_model, mepHash_asModelled]; rfl
+
+/-- the translated `i_ga::hash` / `i_de::hash` hash the raw bytes of every element -/
+theorem gen_ga_hash {H : Type} [HashLike H] (Hf : Bytes → H) (v : List Nat) :
+    GenPack.gaHash.run Hf v = some (gaHash Hf v) := by
+  rw [gen_gaHash_as_modelled, gaHash_asModelled]; rfl
+
+theorem gen_de_hash {H : Type} [HashLike H] (Hf : Bytes → H) (v : List Nat) :
+    GenPack.deHash.run Hf v = some (deHash Hf v) := by
+  rw [gen_deHash_as_modelled, deHash_asModelled]; rfl
+
+/-- the translated `team::hash` is the left fold of `combine` over the members' signatures, in
+    member order, from the empty hash -/
+theorem gen_team_hash {C H : Type} [HashLike H] (hashOf : C → H) (ms : List (Cached C H)) :
+    GenPack.teamHash.run (ms.map (signatureVal hashOf)) = some (teamHash hashOf ms) := by
+  rw [gen_teamHash_as_modelled, teamHash_asModelled]
+  simp [teamHash, List.foldl_map]
+
+/-- the translated `hash_t::combine` is `data[k] = data[k] * 37 + h.data[k]` -/
+theorem gen_combine_eq (a h : Vita.Murmur.Hash) :
+    runCombine GenPack.combine a h = a.combine h := by
+  rw [gen_combine_as_modelled]; rfl
+
+/-! `hash_t::combine` and the order of the members of a team -/
+
+/-- changing the LAST member combined changes the result -/
+theorem combine_inj_right (a x y : Vita.Murmur.Hash) (h : a.combine x = a.combine y) : x = y := by
+  cases x; cases y
+  simp only [Vita.Murmur.Hash.combine, Vita.Murmur.Hash.mk.injEq] at h
+  simp only [Vita.Murmur.Hash.mk.injEq]
+  exact ⟨by grind, by grind⟩
+
+/-- … and so does changing what was accumulated before (37 is odd) -/
+theorem combine_inj_left (a b x : Vita.Murmur.Hash) (h : a.combine x = b.combine x) : a = b :=
+  foldl_combine_inj_acc [x] a b h
+
+/-- two teams that differ in exactly one member (whose signatures differ) never collide through
+    `combine`: the fold is injective in every single position -/
+theorem team_hash_one_member (p s : List Vita.Murmur.Hash) (x y a : Vita.Murmur.Hash)
+    (h : (p ++ x :: s).foldl Vita.Murmur.Hash.combine a = (p ++ y :: s).foldl Vita.Murmur.Hash.combine a) :
+    x = y := by
+  simp only [List.foldl_append, List.foldl_cons] at h
+  exact combine_inj_right _ _ _ (foldl_combine_inj_acc s _ _ h)
+
+/-- the order of the members matters: exchanging two adjacent members with signatures `x`, `y`
+    keeps the team hash only if `36·x = 36·y` in both words, i.e. `x ≡ y (mod 2^62)` — a
+    commutative `combine` (x + y, x xor y) would make this an unconditional equality -/
+theorem team_hash_swap_iff (s : List Vita.Murmur.Hash) (x y a : Vita.Murmur.Hash) :
+    (x :: y :: s).foldl Vita.Murmur.Hash.combine a = (y :: x :: s).foldl Vita.Murmur.Hash.combine a ↔
+      36 * x.d0 = 36 * y.d0 ∧ 36 * x.d1 = 36 * y.d1 := by
+  simp only [List.foldl_cons]
+  constructor
+  · intro h
+    have := foldl_combine_inj_acc s _ _ h
+    simp only [Vita.Murmur.Hash.combine, Vita.Murmur.Hash.mk.injEq] at this
+    exact ⟨(swap37_iff _ _ _).1 this.1, (swap37_iff _ _ _).1 this.2⟩
+  · intro h
+    have e : (a.combine x).combine y = (a.combine y).combine x := by
+      simp only [Vita.Murmur.Hash.combine, Vita.Murmur.Hash.mk.injEq]
+      exact ⟨(swap37_iff _ _ _).2 h.1, (swap37_iff _ _ _).2 h.2⟩
+    rw [e]
+
+example : ([⟨1, 0⟩, ⟨2, 0⟩] : List Vita.Murmur.Hash).foldl Vita.Murmur.Hash.combine ⟨0, 0⟩ ≠
+    ([⟨2, 0⟩, ⟨1, 0⟩] : List Vita.Murmur.Hash).foldl Vita.Murmur.Hash.combine ⟨0, 0⟩ := by decide
+
+/-! Where opcodes come from (`symbol::symbol`: `opcode_(opc_count_++)`, one process-wide counter)
+    and the premise "`op < 2^32`, different symbols have different hashed opcode bytes" -/
+
+theorem gen_counter_as_modelled : GenPack.opcodeCounter = counterAsModelled := by decide
+
+/-- the first 2^32 symbols constructed in a process get pairwise different opcodes, all below 2^32
+    (the bound `WF` / `WFT` ask for) -/
+theorem opcodes_distinct (i j : Nat) (hi : i < 2 ^ 32) (hj : j < 2 ^ 32)
+    (h : GenPack.opcodeCounter.opcodeOf i = GenPack.opcodeCounter.opcodeOf j) : i = j := by
+  rw [gen_counter_as_modelled] at h
+  simp only [CounterSyn.opcodeOf, counterAsModelled, if_true] at h
+  omega
+
+theorem opcodes_bounded (k : Nat) : GenPack.opcodeCounter.opcodeOf k < 4294967296 := by
+  rw [gen_counter_as_modelled]
+  simp only [CounterSyn.opcodeOf, counterAsModelled]
+  omega
+
+/-- … and `pack` hashes different bytes for them (all four bytes of the opcode are pushed) -/
+theorem opcode_bytes_distinct (tab : SymTab) (self : Locus → Option Bytes) (g1 g2 : Gene) (i j : Nat)
+    (hi : i < 2 ^ 32) (hj : j < 2 ^ 32) (hij : i ≠ j)
+    (h1 : g1.op = GenPack.opcodeCounter.opcodeOf i) (h2 : g2.op = GenPack.opcodeCounter.opcodeOf j) :
+    exec tab g1 self (.pushBytes .opcode 0 4) ≠ exec tab g2 self (.pushBytes .opcode 0 4) := by
+  intro h
+  simp only [exec, PVal.eval, Nat.le_refl, if_true, List.drop_zero, Nat.sub_zero, Option.some.injEq] at h
+  rw [show ∀ x, List.take 4 (leBytes x 4) = leBytes x 4 from fun x =>
+        List.take_of_length_le (by rw [leBytes_length]; exact Nat.le_refl _),
+      leBytes4_eq_opBytes, leBytes4_eq_opBytes] at h
+  have := opBytes_inj (h1 ▸ opcodes_bounded i) (h2 ▸ opcodes_bounded j) h
+  exact hij (opcodes_distinct i j hi hj (h1 ▸ h2 ▸ this))
+
+/-- beyond: the counter is NOT guarded, after 2^32 constructions it silently wraps (4.3·10^9
+    symbols: out of reach) … -/
+theorem opcodes_wrap : GenPack.opcodeCounter.opcodeOf (2 ^ 32) = GenPack.opcodeCounter.opcodeOf 0 := by
+  rw [gen_counter_as_modelled]; decide
+
+/-- … whereas a `pack` that keeps only 16 bits of the opcode (as vita did: finding
+    C03-opcode-truncation) already confuses the 1st and the 65537th symbol of a process -/
+example : (PVal.castU 16 .opcode).eval ⟨GenPack.opcodeCounter.opcodeOf 65536, 0, []⟩ =
+    (PVal.castU 16 .opcode).eval ⟨GenPack.opcodeCounter.opcodeOf 0, 0, []⟩ := by decide
+
+end translated
+
 /-! non-vacuity: a concrete symbol table and two layouts of `ADD(X, 2.5)` with different introns -/
 section example_
 def exTab : SymTab := fun op =>
@@ -199,7 +359,8 @@ def exG2 : Genome := ⟨4, 1, fun i _ =>
   else ⟨2, 4612811918334230528, []⟩⟩
 example : pack exTab exG1 (0, 0) = pack exTab exG2 (1, 0) := by decide
 example : unfold exTab exG1 (0, 0) = unfold exTab exG2 (1, 0) := by decide
-example : pack exTab exG1 (0, 0) = some [1, 0, 3, 0, 2, 0, 0, 0, 0, 0, 0, 0, 4, 64] := by decide
+example : pack exTab exG1 (0, 0) =
+    some [1, 0, 0, 0, 3, 0, 0, 0, 2, 0, 0, 0, 0, 0, 0, 0, 0, 0, 4, 64] := by decide
 example : pack exTab exG1 (0, 0) ≠ pack exTab exG1 (1, 0) := by decide
 end example_
 
@@ -465,5 +626,181 @@ example : SigInv (deHash murmurBytes)
       (fun s op => op.apply murmurBytes s) (⟨[3, 4], HashLike.empty⟩ : Vec Vita.Murmur.Hash)) :=
   de_sig_inv_reachable murmurBytes _ _
 end example2
+
+/-! ## Part D — MurmurHash3 x64 128 as translated from src/kernel/cache_hash.h
+
+`GenPack.murmur` holds `hash128` (block loop, fall-through tail `switch`, finalisation), `fmix`,
+`rotl64` and `get_block` as statements over five registers, regenerated on every run. -/
+
+section murmur
+open USyn
+
+/-- (the default value of the seed, `GenPack.murmurDefaultSeed`, is not part of the term: the
+    theorems below hold for every seed) -/
+theorem gen_murmur_as_modelled : GenPack.murmur = murmurAsModelled := by decide
+
+/-- the translated `hash128` computes the model `Vita.Murmur.hash128` (the one the other
+    properties execute) on EVERY message and seed: block loop = `body`, tail switch = `tailStep`
+    (the shifted bytes xor-ed by the switch occupy disjoint bits: xor = or), finalisation =
+    `finish` -/
+theorem murmur_translated_eq_model (bytes : List UInt8) (seed : UInt64) :
+    GenPack.murmur.run bytes seed = Vita.Murmur.hash128 bytes seed := by
+  rw [gen_murmur_as_modelled]; exact run_eq bytes seed
+
+/-- For every length `n`, the block loop and the tail switch together read every byte of the
+    message exactly once (no byte skipped, none read twice): the list of indices read, in
+    execution order, is a permutation of `0 … n-1`. -/
+theorem murmur_reads_every_byte_once (n : Nat) : (GenPack.murmur.reads n).Perm (List.range n) := by
+  rw [gen_murmur_as_modelled]; exact reads_perm n
+
+/-- `fmix` is injective (xor-shifts by 33 are involutions, the multipliers are odd) -/
+theorem fmix_injective (a b : UInt64) (h : Vita.Murmur.fmix a = Vita.Murmur.fmix b) : a = b :=
+  fmix_inj a b h
+
+/-- the finalisation loses nothing: different pre-finalisation states (same length) give
+    different hashes -/
+theorem finish_injective_state (h1 h2 : Vita.Murmur.Hash) (len : Nat)
+    (h : Vita.Murmur.finish h1 len = Vita.Murmur.finish h2 len) : h1 = h2 :=
+  finish_inj_state h1 h2 len h
+
+/-- different lengths feed different values: from one pre-finalisation state (e.g. messages that
+    differ only in trailing zero bytes of the last block) two lengths below 2^64 never give the
+    same hash -/
+theorem finish_injective_len (h : Vita.Murmur.Hash) (l1 l2 : Nat) (b1 : l1 < 2 ^ 64) (b2 : l2 < 2 ^ 64)
+    (e : Vita.Murmur.finish h l1 = Vita.Murmur.finish h l2) : l1 = l2 := by
+  have := finish_inj_len h l1 l2 e
+  have h1 := congrArg UInt64.toNat this
+  simp only [Nat.toUInt64_eq, UInt64.toNat_ofNat'] at h1
+  omega
+
+example : GenPack.murmur.run [104, 101, 108, 108, 111] 1973 = ⟨14265882799767548616, 12174794982621535140⟩ := by
+  decide
+
+end murmur
+
+/-! ## Part C — concurrent signature computations do not interfere
+
+Signatures are computed by evaluator / evolution code that may run on several threads.  The model
+(`Vita.C03.SigPath`): threads are sequences of steps on a memory; a step is `Confined F R` when it
+writes only inside `F` and what it writes depends only on `F ∪ R`. -/
+
+section sigpath
+open SigPath
+
+/-- Two threads with disjoint write footprints that only share a region nobody writes: in every
+    interleaving, thread A's footprint (and the read-only region) ends up exactly as when A runs
+    alone — from any two memories that agree on `F_A ∪ R`. -/
+theorem interleave_agree {Loc Val : Type} (FA FB R : Loc → Prop)
+    (disj : ∀ l, FA l → ¬ FB l) (roB : ∀ l, R l → ¬ FB l)
+    {A B S : List (Step Loc Val)} (h : Interleave A B S) :
+    (∀ s ∈ A, Confined FA R s) → (∀ s ∈ B, Confined FB R s) →
+    ∀ m m' : Mem Loc Val, (∀ l, FA l ∨ R l → m l = m' l) →
+      ∀ l, FA l ∨ R l → run S m l = run A m' l := by
+  induction h with
+  | nil => intro _ _ m m' hag l hl; exact hag l hl
+  | @left a A B S _ ih =>
+    intro hA hB m m' hag l hl
+    show run S (a m) l = run A (a m') l
+    refine ih (fun s hs => hA s (List.mem_cons_of_mem _ hs)) hB (a m) (a m') ?_ l hl
+    intro k hk
+    have ca := hA a (List.mem_cons_self ..)
+    by_cases hf : FA k
+    · exact ca.dep m m' hag k hf
+    · rw [ca.frame m k hf, ca.frame m' k hf]; exact hag k hk
+  | @right b A B S _ ih =>
+    intro hA hB m m' hag l hl
+    show run S (b m) l = run A m' l
+    refine ih hA (fun s hs => hB s (List.mem_cons_of_mem _ hs)) (b m) m' ?_ l hl
+    intro k hk
+    have cb := hB b (List.mem_cons_self ..)
+    have hnb : ¬ FB k := by
+      rcases hk with h1 | h1
+      · exact disj k h1
+      · exact roB k h1
+    rw [cb.frame m k hnb]; exact hag k hk
+
+/-- … in particular from the same initial memory -/
+theorem interleave_private {Loc Val : Type} (FA FB R : Loc → Prop)
+    (disj : ∀ l, FA l → ¬ FB l) (roB : ∀ l, R l → ¬ FB l)
+    (A B S : List (Step Loc Val)) (h : Interleave A B S)
+    (hA : ∀ s ∈ A, Confined FA R s) (hB : ∀ s ∈ B, Confined FB R s) (m : Mem Loc Val) :
+    ∀ l, FA l → run S m l = run A m l :=
+  fun l hl => interleave_agree FA FB R disj roB h hA hB m m (fun _ _ => rfl) l (Or.inl hl)
+
+theorem interleave_symm {α : Type} {A B S : List α} (h : Interleave A B S) : Interleave B A S := by
+  induction h with
+  | nil => exact .nil
+  | left _ ih => exact .right ih
+  | right _ ih => exact .left ih
+
+/-- stack, `thread_local` variables and the members of the individual being hashed are private
+    to a (thread, individual) pair: different threads working on different individuals have
+    disjoint footprints -/
+theorem footprints_disjoint (t1 o1 t2 o2 : Nat) (ht : t1 ≠ t2) (ho : o1 ≠ o2) :
+    ∀ l, footprint t1 o1 l → ¬ footprint t2 o2 l := by
+  intro l h1 h2
+  cases l <;> simp only [footprint] at h1 h2
+  · exact ht (h1.symm.trans h2)
+  · exact ht (h1.symm.trans h2)
+  · exact ho (h1.symm.trans h2)
+
+/-- Two threads computing signatures of different individuals, all of whose steps stay inside
+    locals / parameters / `thread_local` storage / members of their own individual and read
+    otherwise only immutable data: whatever the scheduler does, each thread ends with exactly
+    what it computes when it runs alone. -/
+theorem signature_threads_independent {Val : Type} (t1 o1 t2 o2 : Nat) (ht : t1 ≠ t2) (ho : o1 ≠ o2)
+    (A B S : List (Step Place Val)) (h : Interleave A B S)
+    (hA : ∀ s ∈ A, Confined (footprint t1 o1) readOnly s)
+    (hB : ∀ s ∈ B, Confined (footprint t2 o2) readOnly s) (m : Mem Place Val) :
+    (∀ l, footprint t1 o1 l → run S m l = run A m l) ∧
+    (∀ l, footprint t2 o2 l → run S m l = run B m l) := by
+  have ro : ∀ (t o : Nat) (l : Place), readOnly l → ¬ footprint t o l := by
+    intro t o l hr hf
+    cases l <;> simp only [readOnly, footprint] at hr hf
+  exact ⟨interleave_private _ _ readOnly (footprints_disjoint t1 o1 t2 o2 ht ho) (ro t2 o2)
+           A B S h hA hB m,
+         interleave_private _ _ readOnly (footprints_disjoint t2 o2 t1 o1 (Ne.symm ht) (Ne.symm ho))
+           (ro t1 o1) B A S (interleave_symm h) hB hA m⟩
+
+/-- non-vacuity: "append a byte taken from my individual to my thread_local buffer" is confined -/
+example : Confined (footprint 1 10) readOnly
+    (fun (m : Mem Place Nat) l => if l = .tls 1 0 then m (.tls 1 0) + m (.member 10 3) + m (.immutable 7) else m l) := by
+  constructor
+  · intro m l hl
+    by_cases e : l = .tls 1 0
+    · subst e; exact absurd rfl hl
+    · simp [e]
+  · intro m m' hag l _
+    by_cases e : l = .tls 1 0
+    · simp only [e, if_true]
+      rw [hag (.tls 1 0) (Or.inl rfl), hag (.member 10 3) (Or.inl rfl), hag (.immutable 7) (Or.inr trivial)]
+    · simp only [e, if_false]
+      exact hag l (Or.inl ‹_›)
+
+/-- … whereas a step through a process-wide variable is not (this is the `static` scratch buffer) -/
+example : ¬ Confined (footprint 1 10) readOnly
+    (fun (m : Mem Place Nat) l => if l = .shared 0 then m (.member 10 3) else m l) := by
+  intro c
+  have := c.frame (fun _ => 0) (.shared 0) (by simp [footprint])
+  have h2 := c.frame (fun l => if l = .member 10 3 then 1 else 0) (.shared 0) (by simp [footprint])
+  simp at h2
+
+/-! ### generated obligations: what the functions reachable from `signature()` touch
+    (`GenSigPath`, regenerated from the clang AST on every run) -/
+
+/-- every variable with static storage duration mentioned on the signature path is `thread_local`,
+    const, or on the justified list -/
+theorem sigpath_no_shared_state : ∀ u ∈ GenSigPath.globals, u.ok = true := by decide
+
+/-- every callee outside namespace vita is on the list of re-entrant library functions -/
+theorem sigpath_externals_reentrant : ∀ e ∈ GenSigPath.externals, e ∈ reentrantExternals := by decide
+
+/-- the only member a const function of the path writes is the cache itself -/
+theorem sigpath_writes_cache_only : ∀ w ∈ GenSigPath.thisWrites, w.2 = "signature_" := by decide
+
+/-- no non-const member function is called on an object that is not local / parameter / `*this` -/
+theorem sigpath_no_foreign_mutation : GenSigPath.foreignCalls = [] := by decide
+
+end sigpath
 
 end Vita.C03
